@@ -8,6 +8,7 @@
 //	posts      obs n=<POSTs carrying the message> tok=<per POST: Authorization header?> auth=<calls of Authorize in the whole case>
 //	end        obs result | done | err:<kind> | hang
 //	probe      obs ok | err | skipped          (a ping made afterwards on the same session; skipped when the message hangs)
+//	close      obs delete=<DELETE requests made by Close>
 //
 // ans (the peer's answer to the first / second POST of the message): terr (RoundTrip fails), hang (accepted; the
 // response headers never come: RoundTrip returns when the REQUEST's context ends), st<code>[r] (a status, r: with a
@@ -165,6 +166,7 @@ type cwServer struct {
 	mu     sync.Mutex
 	phase  string // init | bg | test | probe
 	bgPending int
+	deletes   int // DELETE requests (the session is deleted at Close unless the server has said that it is gone)
 	posts  int
 	toks   []bool
 	bad    []string
@@ -262,6 +264,9 @@ func (sv *cwServer) answer(req *http.Request, a string, idJSON string) (*http.Re
 func (sv *cwServer) RoundTrip(req *http.Request) (*http.Response, error) {
 	switch req.Method {
 	case http.MethodDelete:
+		sv.mu.Lock()
+		sv.deletes++
+		sv.mu.Unlock()
 		return sv.resp(req, http.StatusNoContent, "", "", ""), nil
 	case http.MethodGet:
 		return sv.resp(req, http.StatusMethodNotAllowed, "", "sess", ""), nil // no standalone stream
@@ -368,6 +373,7 @@ type cwResult struct {
 	auths int
 	end   string
 	probe string
+	dels  int
 	bad   []string
 }
 
@@ -492,6 +498,7 @@ func cwRun(t *testing.T, s *cwScenario) (res cwResult) {
 	}
 	sv.mu.Lock()
 	res.bad = append([]string(nil), sv.bad...)
+	res.dels = sv.deletes
 	sv.mu.Unlock()
 	return res
 }
@@ -534,6 +541,7 @@ func cwEmit(out *verifOut, cs string, s *cwScenario, r cwResult, extra ...string
 	}
 	out.line(cs, "end", r.end, "end-"+strings.ReplaceAll(e, ":", "-"))
 	out.line(cs, "probe", r.probe, "probe-"+r.probe)
+	out.line(cs, "close", fmt.Sprintf("delete=%d", r.dels), fmt.Sprintf("close-delete-%d", r.dels))
 }
 
 // ---- the opening of the standalone stream (connectStandaloneSSE)
